@@ -1255,7 +1255,11 @@ pub fn lsh_bucket_with_distances(
             .map(|(&a, &b)| f64::from(a) * f64::from(b))
             .sum();
 
-        if dot > 0.0 {
+        // The bucket bit is decided exactly as lsh_bucket() decides it (f32 accumulation):
+        // the first probe of lsh_multi_probe is documented to be the bucket the vector is
+        // filed under, and an f64 sum can land on the other side of the hyperplane.
+        let dot32: f32 = v.iter().zip(hp.iter()).map(|(&a, &b)| a * b).sum();
+        if dot32 > 0.0 {
             bucket |= 1i64 << h;
         }
         distances.push(dot.abs());
